@@ -58,10 +58,27 @@ def rv(v, declared=()):
     return "other:" + type(v).__name__
 
 
-def render_ns(ns, dests):
+def render_ns(ns, dests, classes=None, seen=None, info=None):
+    """dests: [(dest, declared class name)].  classes: the job's namespace (declared class objects by name).
+    seen: ids of mutable containers handed out by earlier parses of this process (aliasing probe).
+    info: receives `extra` (every other attribute of the namespace) and `aliased` (container fields that ARE objects
+    an earlier parse returned)."""
     import dataclasses
+    import pathlib
 
     out = []
+    classes = classes or {}
+    aliased = []
+
+    def probe(key, v):
+        if seen is not None and isinstance(v, (list, dict, set)):
+            if id(v) in seen:
+                aliased.append(key)
+            seen[id(v)] = v          # keeps the object alive, so the id stays unique
+
+    def cls_tag(v, declared):
+        # the CLASS of a dataclass instance must be the declared class object, not merely one of the same name
+        return "" if declared is None or type(v) is declared else "!not-the-declared-class"
 
     def walk(prefix, inst):
         for f in dataclasses.fields(inst):
@@ -72,17 +89,25 @@ def render_ns(ns, dests):
                 out.append([key, "unset"])
                 continue
             if dataclasses.is_dataclass(v) and not isinstance(v, type):
-                out.append([key, "dc:" + type(v).__name__])
+                nested_ok = (not classes) or type(v) is classes.get(type(v).__name__)
+                out.append([key, "dc:" + type(v).__name__ + ("" if nested_ok else "!not-the-declared-class")])
                 walk(key, v)
             else:
+                probe(key, v)
                 out.append([key, rv(v, tuple(declared_enums(f.type)))])
 
-    for dest in dests:
+    names = []
+    for item in dests:
+        dest, cname = item if isinstance(item, (list, tuple)) else (item, None)
+        names.append(dest)
         if not hasattr(ns, dest):
             out.append([dest, "missing"])
             continue
         v = getattr(ns, dest)
         if dataclasses.is_dataclass(v) and not isinstance(v, type):
+            tag = cls_tag(v, classes.get(cname)) if cname else ""
+            if tag:
+                out.append([dest, "dc:" + type(v).__name__ + tag])
             walk(dest, v)
         else:
             out.append([dest, rv(v)])
@@ -92,10 +117,39 @@ def render_ns(ns, dests):
             out.append(["subgroups:" + k, rv(sg[k])])
     elif sg is not None:
         out.append(["subgroups", rv(sg)])
+    if info is not None:
+        def rx(v):
+            if isinstance(v, pathlib.PurePath):
+                return "path:" + str(v)
+            if isinstance(v, (list, tuple)):
+                return ("list(" if isinstance(v, list) else "tuple(") + ",".join(rx(x) for x in v) + ")"
+            if isinstance(v, dict):
+                return "dict(" + ",".join(f"{k}={rx(x)}" for k, x in v.items()) + ")"
+            return rv(v)
+        info["extra"] = sorted([k, rx(v)] for k, v in vars(ns).items() if k not in names and k != "subgroups")
+        info["aliased"] = aliased
     return out
 
 
 LAST_IN_SETUP = [False]
+LAST = {"tb": [], "stream": "none"}
+
+
+def _tb_names(e):
+    """function names of the library's frames the exception travelled through, innermost last (which code path raised)"""
+    names = []
+    tb = e.__traceback__
+    while tb is not None:
+        fn = tb.tb_frame.f_code.co_filename
+        if "simple_parsing" in fn:
+            names.append(tb.tb_frame.f_code.co_name)
+        tb = tb.tb_next
+    return names[-6:]
+
+
+def _stream(out, err):
+    o, e = bool(out.getvalue()), bool(err.getvalue())
+    return "both" if o and e else "out" if o else "err" if e else "none"
 
 
 def _in_setup(e):
@@ -111,12 +165,15 @@ def _in_setup(e):
 def outcome(fn):
     out, err = io.StringIO(), io.StringIO()
     LAST_IN_SETUP[0] = False
+    LAST["tb"], LAST["stream"] = [], "none"
     try:
         with contextlib.redirect_stdout(out), contextlib.redirect_stderr(err):
             v = fn()
+        LAST["stream"] = _stream(out, err)
         return ["ok", v]
     except SystemExit as e:
         LAST_IN_SETUP[0] = _in_setup(e)
+        LAST["tb"], LAST["stream"] = _tb_names(e), _stream(out, err)
         code = e.code
         if code is None:
             code = 0
@@ -125,6 +182,7 @@ def outcome(fn):
         return ["exit", code]
     except BaseException as e:  # noqa: BLE001
         LAST_IN_SETUP[0] = _in_setup(e)
+        LAST["tb"], LAST["stream"] = _tb_names(e), _stream(out, err)
         return ["raise", type(e).__name__]
 
 
@@ -143,6 +201,7 @@ def run_job(spec, ops):
     ns = {}
     exec(compile(spec["classes_src"], "<c08-classes>", "exec", dont_inherit=True), ns)
     parsers, dests = {}, {}
+    seen = {}
     res = []
     for op in ops:
         kind, slot = op[0], op[1]
@@ -172,7 +231,7 @@ def run_job(spec, ops):
             late = bool(p._preprocessing_done)
             r = outcome(lambda: p.add_arguments(ns[op[2]], op[3]) and None)
             if r[0] == "ok":
-                dests[slot].append(op[3])
+                dests[slot].append((op[3], op[2]))
                 res.append({"r": ["done"], "late": late})
             else:
                 res.append({"r": r, "late": late})
@@ -180,9 +239,11 @@ def run_job(spec, ops):
             done_before = bool(p._preprocessing_done)
             argv = list(op[2])
             ds = list(dests[slot])
-            r = outcome(lambda: render_ns(p.parse_args(argv), ds))
+            info = {}
+            r = outcome(lambda: render_ns(p.parse_args(argv), ds, ns, seen, info))
             res.append({"r": r, "done_before": done_before, "opts": registered(p), "in_setup": LAST_IN_SETUP[0],
-                        "done_after": bool(p._preprocessing_done)})
+                        "done_after": bool(p._preprocessing_done), "tb": LAST["tb"], "stream": LAST["stream"],
+                        "extra": info.get("extra", []), "aliased": info.get("aliased", [])})
         elif kind == "print_help":
             r = outcome(lambda: p.print_help() and None)
             res.append({"r": ["done"] if r[0] == "ok" else r, "in_setup": LAST_IN_SETUP[0],
